@@ -26,6 +26,18 @@ CLAIMS = {
    tech="TLA+ model checking (TLC) + exhaustive graph-walk replay into the real allocator + TLC trace validation", ref="DESIGN.md section 7 C08"),
 }
 
+ # appended entries
+CLAIMS.update({
+ "C09": dict(cat="exploration",
+   text="Token.tla (on W64.tla byte-limb arithmetic) defines Murmur3 as Cassandra computes it (signed tail bytes, normalised minimum), the Random partitioner's absolute value of the signed 128-bit MD5, unsigned byte order for the ordered partitioner, routing-key composition and the ordering of token strings; it is self-tested against published vectors by ASSUME. TLC-generated keys (every tail length x 0-2 blocks x byte classes, composite keys, token strings) are executed on the real code (both getBlock variants, partitioners, createRoutingKey, Query/Batch.GetRoutingKey) and seeded random vectors recorded from the real code are judged by TLC against the specification.",
+   note="Specification as oracle over enumerated and random inputs (not a proof); crypto/md5 digests are trusted inputs; routing-key component encodings limited to blob, text, int, bigint, boolean, uuid.",
+   tech="TLA+ reference definitions evaluated by TLC as oracle: generated cases replayed into the real code + TLC validation of recorded vectors", ref="DESIGN.md section 7 C09"),
+ "C19": dict(cat="exploration",
+   text="Uuid.tla defines the parse language, print/parse inversion, the RFC 4122 version-1 layout (60-bit timestamp split, version, variant, clock sequence, node), time round trip to 100 ns, version 4 stamping and the Min/Max time-UUID bounds under Cassandra's signed-byte ordering; UuidGen.tla model-checks the generator (atomic clock-sequence increment gives pairwise distinct UUIDs below 2^14 per tick; TLC exhibits the wrap and the non-atomic variant). TLC-generated strings/timestamps are executed on the real API, recorded observations are judged by TLC, and a concurrent TimeUUID() run (16 goroutines) is checked distinct by TLC.",
+   note="Specification as oracle over enumerated and random inputs; where the property text does not fix hyphen positions both outcomes are accepted; uniqueness assumes fewer than 2^14 UUIDs per 100 ns tick.",
+   tech="TLA+ reference definitions evaluated by TLC as oracle in both directions; TLC model checking of the generator model; TLC validation of a recorded concurrent run", ref="DESIGN.md section 7 C19"),
+})
+
 NA = {}
 DEFAULT_NA = "machinery under construction in this round; not yet claimed"
 
